@@ -294,6 +294,7 @@ func pubsubC07(c *Ctx) {
 	c.delegates("(*ChanPubSub).Subscribe", "(*ChanPubSub).Add", "recv", "int:1")
 	c.delegates("(*ChanPubSub).Unsubscribe", "(*ChanPubSub).Add", "recv", "int:-1")
 	P := c.P
+	guardFns := map[*ssa.Function]bool{}
 	// 7. no false "broken"
 	for _, name := range []string{"(*ChanPubSub).Send", "(*ChanPubSub).Add"} {
 		q := c.F(name)
@@ -301,23 +302,42 @@ func pubsubC07(c *Ctx) {
 			continue
 		}
 		for _, d := range an.AllInstrs(q.fn, func(in ssa.Instruction) bool { _, ok := in.(*ssa.Defer); return ok }) {
-			mc, ok := d.(*ssa.Defer).Call.Value.(*ssa.MakeClosure)
-			if !ok {
+			// the deferred guard: a closure testing a captured flag, or a library method given the flag's address
+			var f *ssa.Function
+			var flagPrm *ssa.Parameter
+			var cell *ssa.Alloc
+			dc := &d.(*ssa.Defer).Call
+			if mc, ok := dc.Value.(*ssa.MakeClosure); ok {
+				f = mc.Fn.(*ssa.Function)
+			} else if callee := dc.StaticCallee(); callee != nil && P.IsLib(an.Canon(callee)) {
+				f = an.Canon(callee)
+				for i, a := range dc.Args {
+					if al, isAl := a.(*ssa.Alloc); isAl && i < len(f.Params) && isBoolT(loadOf(al)) {
+						flagPrm, cell = f.Params[i], al
+					}
+				}
+				if flagPrm == nil {
+					continue
+				}
+			} else {
 				continue
 			}
-			f := mc.Fn.(*ssa.Function)
 			mbs := P.CallsTo(f, "(*ChanPubSub).markBroken")
 			if len(mbs) == 0 {
 				continue
 			}
+			guardFns[f] = true
 			// which cell guards it
-			var cell *ssa.Alloc
 			ifs, negs := P.IfsOn(f, func(cond ssa.Value) bool {
 				ld, ok := isLoad(cond)
-				if ok {
-					cell = P.CellOf(ld.X)
+				if !ok {
+					return false
 				}
-				return ok && cell != nil
+				if flagPrm != nil {
+					return ld.X == ssa.Value(flagPrm)
+				}
+				cell = P.CellOf(ld.X)
+				return cell != nil
 			})
 			dq := &fq{c: c, fn: f, name: an.FuncName(f)}
 			if len(ifs) != 1 || cell == nil {
@@ -331,7 +351,7 @@ func pubsubC07(c *Ctx) {
 			dq.add("PATH", "markBroken only if the call did not complete", dq.onlyViaEdge(mbs[0], ifs[0], fs), "markBroken reached only through success == false", mbs[0])
 			var trues []ssa.Instruction
 			for _, st := range P.CellStores(cell) {
-				if b, isB := constBool(st.Val); isB && b && st.Parent() == q.fn {
+				if b, isB := constBool(st.Val); isB && b && an.Host(st.Parent()) == q.fn {
 					trues = append(trues, st)
 				}
 			}
@@ -355,7 +375,7 @@ func pubsubC07(c *Ctx) {
 	var stray []ssa.Instruction
 	for _, fn := range P.Funcs {
 		n := an.FuncName(fn)
-		if n == "(*ChanPubSub).sanityCheckSubscribersDelta" || strings.HasPrefix(n, "(*ChanPubSub).Send$") || strings.HasPrefix(n, "(*ChanPubSub).Add$") {
+		if n == "(*ChanPubSub).sanityCheckSubscribersDelta" || strings.HasPrefix(n, "(*ChanPubSub).Send$") || strings.HasPrefix(n, "(*ChanPubSub).Add$") || guardFns[fn] {
 			continue
 		}
 		stray = append(stray, P.CallsTo(fn, "(*ChanPubSub).markBroken")...)
@@ -1163,4 +1183,17 @@ func receivedIsAcknowledged(c *Ctx, it *fq) {
 	skipped := P.PathExists(it.fn, ifs[0], exit, an.In(waits), cutEdge(ifs[0], 1-ts))
 	it.add("PATH", "a received value is always acknowledged", !skipped,
 		pickS(!skipped, "from recvOk == true every path to a return or to the next select passes Wait()", "after receiving a value the iterator can return (or select again) without calling Wait: the Send that delivered it would wait for that acknowledgement for ever"), ifs[0])
+}
+
+// loadOf: a value of the element type of the cell (for type tests only).
+func loadOf(al *ssa.Alloc) ssa.Value {
+	for _, r := range *al.Referrers() {
+		if u, ok := r.(*ssa.UnOp); ok && u.Op == token.MUL {
+			return u
+		}
+		if st, ok := r.(*ssa.Store); ok && st.Addr == ssa.Value(al) {
+			return st.Val
+		}
+	}
+	return al
 }
